@@ -11,16 +11,20 @@ let run_h t =
     let cfg = { c_prefix = unhex0 prefix; c_tags = parse_dtags dtags;
                 c_container = (if dcid = "~" then None else Some (unhex0 dcid)) } in
     let n = int_of_string n in
-    let rec go i rest acc =
-      if i = n then List.rev acc else
+    let rec go i rest acc zacc =
+      if i = n then (List.rev acc, List.rev zacc) else
       match rest with
       | _form :: kind :: arg :: key :: ops :: rest' ->
         let c = { k_kind = parse_kind kind; k_key = unhex0 key; k_arg = parse_arg arg; k_ops = parse_ops ops } in
         let r = match client_line cfg c with
           | None -> "notype" | Some (Inl _) -> "einv" | Some (Inr _) -> "sent" in
-        go (i + 1) rest' (r :: acc)
+        (* the size hint of builder.rs, computed with checked arithmetic ("overflow" = the code would panic) *)
+        let z = match call_hint cfg c with
+          | None -> "-" | Some None -> "overflow" | Some (Some h) -> dec_of_n h in
+        go (i + 1) rest' (r :: acc) (z :: zacc)
       | _ -> failwith "short H case" in
-    String.concat "," (go 0 rest [])
+    let (rs, zs) = go 0 rest [] [] in
+    String.concat "," rs ^ "|Z:" ^ String.concat "," zs
   | _ -> failwith "bad H case"
 
 let dec_of_big n = dec_of_n n
